@@ -452,6 +452,8 @@ struct Task {
 fn main() {
     let ctx = Ctx::from_args("C12", "model_checking");
     let thorough = !ctx.quick();
+    // one work unit is a few hundred real exchanges; leave room for a heavily loaded machine
+    ctx.case_timeout_s.store(600, std::sync::atomic::Ordering::Relaxed);
 
     if let Some((_key, case)) = ctx.replay_case() {
         let w = Worker::new();
